@@ -278,6 +278,8 @@ def cases(tier, seed):
         out.append({"k": "powu0", "i0": i, "i1": min(n0, i + 11)})
     for (sa, sb) in space.broadcastable_pairs(space.SHAPES):
         out.append({"k": "powarray", "a": list(sa), "b": list(sb)})
+    for i in range(8):
+        out.append({"k": "powvalues", "first": i})
     # programs: every (state of depth<=1) as left operand; x ranges over all states of depth<=1
     n1 = len(program_states(1))
     for i in range(n1):
@@ -440,6 +442,22 @@ def run_case(case, R, extra_check=None):
                 judge(R, {"op": "np.power", "x": [P(arr(sa, "int", 1)), e]}, "np.power", extra_check)
                 judge(R, {"op": "pow", "x": [P(arr(sa, "int", 1)), {"l": e["a"]}]} if sb else
                       {"op": "pow", "x": [P(arr(sa, "int", 1)), {"s": 2}]}, "pow", extra_check)
+    elif k == "powvalues":
+        # exponent arrays: every ordered pair and triple over a menu of values on both sides of 8 and 16, as array and list
+        menu = [0, 1, 2, 3, 7, 8, 9, 16]
+        first = menu[case["first"]]
+        R.state(("powvalues", first))
+        base0 = P(space.scalar_spec(("q0", "q1"), [((1, 0), 1), ((0, 0), 1)]))
+        base1 = P(space.array_spec(("q0", "q1"), (2,), [[((1, 0), 1), ((0, 0), 1)], [((0, 1), 1), ((0, 0), -2)]]))
+        base2 = P(space.scalar_spec(("q0", "q1"), [((1, 0), 1), ((0, 1), -1)], "f8"))
+        for second in menu:
+            for base in (base0, base1, base2):
+                judge(R, {"op": "pow", "x": [base, {"a": [first, second], "d": "i8"}]}, "pow", extra_check)
+            judge(R, {"op": "pow", "x": [base0, {"l": [first, second]}]}, "pow", extra_check)
+            judge(R, {"op": "nl.power", "x": [base0, {"a": [[first], [second]], "d": "i8"}]}, "nl.power", extra_check)
+            for third in menu:
+                judge(R, {"op": "pow", "x": [base0, {"a": [first, second, third], "d": "i8"}]}, "pow", extra_check)
+        judge(R, {"op": "pow", "x": [base1, {"s": first}]}, "pow", extra_check)
     elif k == "prog":
         cache = {}
         states = program_states(1)
